@@ -90,7 +90,9 @@ ALLOWED = {
     "test_iterable": {"*": (TypeError,)},
     "sync_do_first": {"*": (StopIteration,)},
     "_min_or_max": {"iter": (), "next": (StopIteration,), "call": ()},
-    "do_reverse": {"*": (TypeError,)},
+    # reverse: TypeError is the signal of the iterability PROBE only ("argument must be iterable"); a TypeError raised by the
+    # data's own __reversed__ or while its iterator is consumed is an exception of the data (hunt C38_2)
+    "do_reverse": {"iter": (TypeError,), "reversed": (), "consume": ()},
     "do_random": {"*": (IndexError,)},
     "do_int": {"*": CONVERSION},
     "do_float": {"*": CONVERSION},
@@ -420,6 +422,147 @@ class EnvGetitem(FaultVC):
         return [self.env, sym("obj", "obj"), sym("argument", "obj")], {}
 
 
+class LoopAttr(FaultVC):
+    """`loop.<attr>` in a template: Environment.getattr / SandboxedEnvironment.getattr on a LoopContext whose property advances
+    the data iterator (last, nextitem) or measures the data (length, revindex, revindex0).  An exception raised by that data
+    step is no attribute-lookup signal, whatever its class."""
+
+    def __init__(self, cls, attr, method="getattr"):
+        self.cls, self.attr, self.method = cls, attr, method
+        fn = f"{cls.__name__}.{method}[loop.{attr}]"
+        ALLOWED.setdefault(fn, {"getattr": (AttributeError,), "getitem": LOOKUP, "next": (), "iter": (), "len": (TypeError,)})
+        FaultVC.__init__(self, fn, f"jinja2.{'sandbox' if cls is SB.SandboxedEnvironment else 'environment'}:{cls.__name__}.{method}")
+        self.expect_sites = ("len",) if attr in ("length", "revindex", "revindex0") else ("next",)
+
+    def configure_more(self, I):
+        for n in ("length", "index", "revindex", "revindex0", "last", "nextitem", "_peek_next", "_to_iterator"):
+            I.inline.add(f"jinja2.runtime:LoopContext.{n}")
+        I.specs["next_obj"] = data_callee("next")
+        I.specs["len_obj"] = data_callee("len", returns="int")
+        I.specs["call_obj"] = lambda I_, st, args, kwargs, node: [(st, fresh("undefined", "obj"))]  # loop._undefined(...)
+        I.specs["LoopContext.__getitem__"] = lambda I_, st, args, kwargs, node: [(st, Raised(Exc(TypeError, ("'LoopContext' object is not subscriptable",))))]
+
+        def list_spec(I_, st, args, kwargs, node):
+            if len(args) == 1 and isinstance(args[0], Sym) and args[0].k == "obj":
+                return data_callee("iter", result=lambda s, a: s.alloc(HList(arr=fresh_arr("lst", "obj"), n=z3.Int(fresh_name("lst_n")), k="obj")))(I_, st, args, kwargs, node)
+            return models.instantiate(I_, st, list, args, kwargs, node)
+
+        I.specs[("fn", id(list))] = list_spec
+        sandbox_hooks(I)
+
+    def setup(self, I, st):
+        fields = {"_iterable": sym("iterable", "obj"), "_iterator": sym("iterator", "obj"), "_after": sym("after", "obj"), "index0": sym("index0", "int"),
+                  "_length": None, "_current": sym("current", "obj"), "_before": sym("before", "obj"), "_undefined": sym("undefined_cls", "obj")}
+        self.loop = st.alloc(HObj(R.LoopContext, fields=fields, path="loop"), initial=True)
+        return [env_obj(st, self.cls), self.loop, self.attr], {}
+
+    def p_no_residue(self, pre, out):
+        return None  # the loop object is per-render state; its frame is C38.no_residue.LoopContext.*
+
+    posts = [("catch", FaultVC.p_catch), ("same_object", FaultVC.p_same_object)]
+
+
+class LoopAttrGroup(Task):
+    """The five data-driving loop properties through one environment class, reported as one obligation per clause."""
+    kind = "vc"
+    prop = "C38"
+
+    def __init__(self, cls, method="getattr"):
+        self.cls = cls
+        self.fn = f"{cls.__name__}.{method}[loop.*]"
+        self.name = "C38." + self.fn
+        self.vcs = [LoopAttr(cls, a, method) for a in ("last", "nextitem", "length", "revindex", "revindex0")]
+
+    def run(self, tier, seed):
+        out, per_clause = [], {}
+        for vc in self.vcs:
+            for r in vc.run(tier, seed):
+                clause = r.name.split(".")[1]
+                if clause in ("catch", "same_object") and r.status in ("refuted", "discharged"):
+                    d = per_clause.setdefault(clause, {"bad": [], "n": 0, "wit": None, "detail": ""})
+                    d["n"] += 1
+                    if r.status == "refuted":
+                        w = r.witness or {}
+                        d["bad"].append(f"loop.{vc.attr}:{w.get('site')}:{w.get('exc')}")
+                        if d["wit"] is None:
+                            d["wit"], d["detail"] = w, f"{vc.fn}: {r.detail}"
+                else:
+                    out.append(r)
+        for clause, d in sorted(per_clause.items()):
+            nm = f"C38.{clause}.{self.fn}"
+            if d["bad"]:
+                failing = sorted(set(d["bad"]))
+                out.append(Res(nm, "refuted", "pyvc-path", 0.0, f"{failing}: {d['detail']}", "vc", dict(d["wit"], failing=failing)))
+            else:
+                out.append(Res(nm, "discharged", "pyvc-path", 0.0, f"{d['n']} path obligations", "vc"))
+        return out
+
+    def replay(self, w):
+        return native_replay(w)
+
+    def finding_key(self, res):
+        return ",".join((res.witness or {}).get("failing", []))
+
+
+class LookupSignals(FaultVC):
+    """The documented lookup signals become undefined values in every kind of environment: an item access of the data that raises
+    AttributeError / LookupError / TypeError, an attribute access that raises AttributeError (hunt C38_3 = C02_4)."""
+
+    def __init__(self, cls, method):
+        self.cls, self.method = cls, method
+        FaultVC.__init__(self, f"{cls.__name__}.{method}", f"jinja2.{'sandbox' if cls is SB.SandboxedEnvironment else 'environment'}:{cls.__name__}.{method}")
+        self.name = f"C38.{self.fn}[signals]"
+        self.expect_sites = ()
+        self.data_path_needed = False
+
+    def run(self, tier, seed):
+        rs = VC.run(self, tier, seed)
+        for r in rs:
+            r.name = r.name.replace(f"C38.{self.fn}[signals].absorbed", f"C38.signals.{self.fn}")
+        return rs
+
+    def signal(self, site, classes):
+        def h(I_, st, args, kwargs, node):
+            out = []
+            for c in classes:
+                s = st.fork()
+                e = Exc(c, ("signal",), tag=f"{site}:{c.__name__}", origin=getattr(node, "lineno", None))
+                e.signal, e.site = True, site
+                s.trace.append(Event("call", "data:" + site, [], {}, e, lineno=getattr(node, "lineno", None)))
+                out.append((s, Raised(e)))
+            out.append((st, fresh(site, "obj")))
+            return out
+        return h
+
+    def configure_more(self, I):
+        I.specs["getattr_dyn"] = self.signal("getattr", (AttributeError,))
+        I.specs["getitem_obj"] = self.signal("getitem", (AttributeError, KeyError, IndexError, TypeError))
+        I.specs["str_obj"] = lambda I_, st, args, kwargs, node: [(st, fresh("attr", "str"))]
+        sandbox_hooks(I)
+
+    def setup(self, I, st):
+        self.env = env_obj(st, self.cls)
+        arg = sym("attribute", "str") if self.method == "getattr" else sym("argument", "obj")
+        return [self.env, sym("obj", "obj"), arg], {}
+
+    def p_absorbed(self, pre, out):
+        if out.raised and getattr(out.value, "signal", False):
+            self.offender = (out.value.site, None, out.value.origin)
+            self.signal_cls = out.value.cls
+            return False
+        return True
+
+    posts = [("absorbed", p_absorbed)]
+
+    def concretize(self, model, pre, out):
+        site, _c, ln = getattr(self, "offender", (None, None, None))
+        return {"kind": "signal", "function": self.fn, "site": site, "exc": getattr(self, "signal_cls", AttributeError).__name__, "line": ln}
+
+    def finding_key(self, res):
+        w = res.witness or {}
+        return f"{w.get('function')}:{w.get('site')}:{w.get('exc')}:propagates"
+
+
 def sandbox_hooks(I):
     """environment hooks of the sandbox are called through their contracts (A6): they do not run data code"""
     I.specs["SandboxedEnvironment.wrap_str_format"] = A.abstract_fn("wrap_str_format", returns="obj")
@@ -518,13 +661,26 @@ class DoReverse(FaultVC):
     def configure_more(self, I):
         not_a_str(I)
         I.specs[("fn", id(reversed))] = data_callee("reversed")
+        I.specs["iter_obj"] = data_callee("iter")
 
         def list_spec(I_, st, args, kwargs, node):
             if len(args) == 1 and isinstance(args[0], Sym) and args[0].k == "obj":
-                return data_callee("iter", result=lambda s, a: s.alloc(HList(arr=fresh_arr("lst", "obj"), n=z3.Int(fresh_name("lst_n")), k="obj")))(I_, st, args, kwargs, node)
+                return data_callee("consume", result=lambda s, a: s.alloc(HList(arr=fresh_arr("lst", "obj"), n=z3.Int(fresh_name("lst_n")), k="obj")))(I_, st, args, kwargs, node)
             return models.instantiate(I_, st, list, args, kwargs, node)
 
         I.specs[("fn", id(list))] = list_spec
+        # capability probes on the value's class run no data code
+        base_type = I.specs[("fn", id(type))]
+
+        def type_spec(I_, st, args, kwargs, node):
+            if len(args) == 1 and isinstance(args[0], Sym) and args[0].k == "obj":
+                return [(st, fresh("cls", "obj"))]
+            return base_type(I_, st, args, kwargs, node)
+
+        I.specs[("fn", id(type))] = type_spec
+        I.specs[("fn", id(hasattr))] = lambda I_, st, args, kwargs, node: [(st.fork(), True), (st, False)]
+
+    expect_sites = ("reversed", "consume")
 
     def setup(self, I, st):
         return [sym("value", "obj")], {}
@@ -1286,6 +1442,28 @@ def native_call(fn, site, exc):
             return [x async for x in t.generate_async(d=d)]
 
         return (lambda: asyncio.run(agen())), d
+    if "[loop." in fn:
+        e = SB.SandboxedEnvironment() if fn.startswith("Sandboxed") else env
+        attr = fn.split("[loop.", 1)[1].rstrip("]")
+        access = ("loop['" + attr + "']") if ".getitem[" in fn else ("loop." + attr)
+
+        def rows():
+            yield 1
+            d._maybe(site)
+            yield 2
+
+        class Sized:
+            def __len__(self):
+                d._maybe(site)
+                return 2
+
+            def __iter__(self):
+                return iter((1, 2))
+
+        object.__getattribute__(d, "_f")[0] = site
+        data = Sized() if site == "len" else rows()
+        t = e.from_string("{% for x in data %}{{ x }}:{{ " + access + " }},{% endfor %}")
+        return (lambda: t.render(data=data)), d
     if fn.startswith("TemplateStream."):
         t = env.from_string("a{{ 1 }}b{{ d() }}c{{ 2 }}")
         if fn == "TemplateStream._buffered_generator":
@@ -1367,9 +1545,14 @@ def native_call(fn, site, exc):
     if fn == "do_reverse":
         class NoReversed:
             def __iter__(self):
-                d._maybe("iter")
-                return iter(())
-        return (lambda: F.do_reverse(d if site == "reversed" else NoReversed())), d
+                d._maybe("iter")  # the iterability probe
+
+                def rows():
+                    yield 1
+                    d._maybe("consume")
+                    yield 2
+                return rows()
+        return (lambda: list(F.do_reverse(d if site == "reversed" else NoReversed()))), d
     if fn == "do_random":
         ctx = env.from_string("").new_context()
         return (lambda: F.do_random(ctx, d)), d
@@ -1411,6 +1594,24 @@ def native_call(fn, site, exc):
     raise KeyError(fn)
 
 
+def native_signal(w):
+    """a documented lookup signal raised by the data's item / attribute access must become an undefined value"""
+    cls = probe_class(w.get("exc") or "AttributeError")
+    e = SB.SandboxedEnvironment() if w["function"].startswith("Sandboxed") else jinja2.Environment()
+
+    class Delegating:
+        colour = "red"
+
+        def __getitem__(self, key):
+            raise cls(key)
+
+    try:
+        r = getattr(e, w["function"].split(".")[1])(Delegating(), "size")
+    except BaseException as x:  # noqa: B902
+        return (True, f"{w['function']}: the item access of the data raises {cls.__name__}: propagates {x!r} instead of giving an undefined value")
+    return (not isinstance(r, jinja2.Undefined), f"{w['function']}: item access raising {cls.__name__} -> {r!r}")
+
+
 def probe_class(name):
     import builtins
     c = PROBES.get(name) or getattr(builtins, name, None)
@@ -1422,6 +1623,8 @@ def native_replay(w):
     as the same object (or the engine state is changed / unusable afterwards)."""
     if w.get("kind") == "history":
         return NativeHistory().replay(w)
+    if w.get("kind") == "signal":
+        return native_signal(w)
     fn, site, name = w["function"], w.get("site"), w.get("exc") or "Boom"
     if fn not in NATIVE_SITES:
         # no dedicated harness (BlockReference, LoopContext, Macro, loaders ...): these are reached through templates
@@ -1471,6 +1674,8 @@ def native_matrix(tier, seed):
     res = []
     import time
     for fn, sites in NATIVE_SITES.items():
+        if "[loop." in fn:
+            continue  # replay harness of C38.*.getattr[loop.*] only (the composition is decided symbolically)
         t0 = time.time()
         bad = []
         n = 0
@@ -1492,9 +1697,11 @@ def native_matrix(tier, seed):
 
 
 # a coroutine cannot let StopIteration out (PEP 479: the interpreter turns it into RuntimeError) - not a property of jinja
-NATIVE_SKIP = {("do_first", "StopIteration")}
+NATIVE_SKIP = {("do_first", "StopIteration"), ("do_reverse", "StopIteration")}
 
 NATIVE_SITES = {
+    **{f"{c}.{m}[loop.{a}]": (["next"] if a in ("last", "nextitem") else ["len", "iter"])
+       for c in ("Environment", "SandboxedEnvironment") for m in ("getattr", "getitem") for a in ("last", "nextitem", "length", "revindex", "revindex0")},
     "Template.render": ["call"], "Template.render[async]": ["call"], "Template.render_async": ["call"],
     "Template.generate": ["call"], "Template.generate[async]": ["call"], "Template.generate_async": ["call"],
     "Template._get_default_module": ["call"], "Template._get_default_module_async": ["call"],
@@ -1507,7 +1714,7 @@ NATIVE_SITES = {
     "Environment.getattr": ["getattr", "getitem"], "Environment.getitem": ["getitem", "getattr", "str"],
     "SandboxedEnvironment.getattr": ["getattr", "getitem"], "SandboxedEnvironment.getitem": ["getitem", "getattr", "str"],
     "Context.call": ["call"], "test_sequence": ["len", "getattr"], "test_iterable": ["iter"],
-    "sync_do_first": ["iter", "next"], "_min_or_max": ["iter", "next", "call"], "do_reverse": ["reversed", "iter"],
+    "sync_do_first": ["iter", "next"], "_min_or_max": ["iter", "next", "call"], "do_reverse": ["reversed", "consume", "iter"],
     "do_random": ["len", "getitem"], "do_int": ["int", "float"], "do_float": ["float"], "do_attr": ["getattr", "getattr:property"],
     "Environment.select_template": ["load"],
 }
@@ -1579,6 +1786,7 @@ HANDLER_CLASSES = {
     "loaders:ChoiceLoader.load": ['TemplateNotFound'],
     "loaders:ModuleLoader.load": ['ImportError'],
     "nativetypes:native_concat": ['MemoryError,RecursionError,SyntaxError,TypeError,ValueError'],
+    "nativetypes:NativeCodeGenerator._output_child_to_const": ['MemoryError,RecursionError,SyntaxError,TypeError,ValueError'],
     "nativetypes:NativeTemplate.render": ['Exception'],
     "nativetypes:NativeTemplate.render_async": ['Exception'],
     "nodes:Node.iter_fields": ['AttributeError'],
@@ -1654,6 +1862,7 @@ HANDLER_WHY = {
     "lexer:": "tokenising the template source (C39/C01): StopIteration of the lexer's own generator, errors of literal conversion become TemplateSyntaxError",
     "loaders:": "template lookup (C28/C33): OSError / missing package data / unknown prefix are translated into TemplateNotFound or tried on the next "
                 "loader, as the loader API documents; data exceptions of a loaded template's code pass through (contract Environment._load_template)",
+    "nativetypes:NativeCodeGenerator._output_child_to_const": _COMPILE + " (literal_eval of the text of a compile-time constant)",
     "nativetypes:native_concat": "literal_eval of the rendered TEXT (C34): 'if the result can be parsed ... otherwise the string is returned'; no data callee runs",
     "nodes:Node.iter_fields": "AttributeError of a node field that is not set (compile time)",
     "runtime:Context.super": "LookupError of the context's own block table (dict / list of compiled block functions)",
@@ -1662,6 +1871,17 @@ HANDLER_WHY = {
     "utils:import_string": "import of a dotted name given by the application (extensions), re-raised unless `silent`",
     "utils:LRUCache.": "KeyError / ValueError of the cache's own dict and deque (C26)",
     "utils:Namespace.__getattribute__": "KeyError of the namespace's own dict becomes AttributeError (attribute protocol)",
+}
+
+
+# class lists accepted as well: the same handlers after the proposed repairs (proposed_fixes/c02_sandbox_lookup_signals.diff,
+# c38_reverse_typeerror.diff, c38_getitem_str_swallow.diff)
+HANDLER_ALTERNATIVES = {
+    "sandbox:SandboxedEnvironment.getitem": [["AttributeError,LookupError,TypeError", "Exception", "AttributeError"],
+                                             ["AttributeError,LookupError,TypeError", "AttributeError"], ["LookupError,TypeError", "AttributeError"]],
+    "sandbox:SandboxedEnvironment.getattr": [["AttributeError", "AttributeError,LookupError,TypeError"]],
+    "environment:Environment.getitem": [["AttributeError,LookupError,TypeError", "AttributeError"]],
+    "filters:do_reverse": [["TypeError"]],
 }
 
 
@@ -1720,7 +1940,7 @@ def why_for(key):
 def handler_table(task, tier, seed):
     res = []
     found = scan_handlers()
-    contracts = {t.fn for t in TASKS if isinstance(t, FaultVC)}
+    contracts = {t.fn for t in TASKS if isinstance(t, FaultVC)} | {v.fn for t in TASKS if isinstance(t, LoopAttrGroup) for v in t.vcs}
     for key in sorted(set(found) | set(HANDLER_CLASSES)):
         got = [c for c, _ln in found.get(key, [])]
         want = HANDLER_CLASSES.get(key)
@@ -1730,7 +1950,7 @@ def handler_table(task, tier, seed):
         if want is None:
             res.append(Res(nm, "refuted", "table", 0, f"unlisted `except` clause(s) {got} at line(s) {wit['lines']}: a handler that does not re-raise "
                                                       "must be a listed, justified catch", "table", wit))
-        elif got != want:
+        elif got != want and got not in HANDLER_ALTERNATIVES.get(key, []):
             res.append(Res(nm, "refuted", "table", 0, f"`except` clauses changed: listed {want}, found {got} (lines {wit['lines']})", "table", wit))
         elif why is None:
             res.append(Res(nm, "error", "table", 0, "listed handler without justification", "table"))
@@ -1977,7 +2197,11 @@ TASKS = [
     NativeEntry("render_async", True, "NativeTemplate.render_async"),
     EnvGetattr(E.Environment), EnvGetitem(E.Environment), EnvGetattr(SB.SandboxedEnvironment), EnvGetitem(SB.SandboxedEnvironment),
     ContextCall(), TestSequence(), TestIterable(), DoFirst(), MinOrMax(), DoReverse(), DoRandom(), DoInt(), DoFloat(), DoAttr(),
-    SelectTemplate(), HandlerTable(), NativeMatrix(), NativeHistory(),
+    SelectTemplate(),
+    LoopAttrGroup(E.Environment), LoopAttrGroup(SB.SandboxedEnvironment),
+    LoopAttrGroup(E.Environment, "getitem"), LoopAttrGroup(SB.SandboxedEnvironment, "getitem"),
+    *[LookupSignals(c, m) for c in (E.Environment, SB.SandboxedEnvironment) for m in ("getattr", "getitem")],
+    HandlerTable(), NativeMatrix(), NativeHistory(),
 ]
 
 META = {
